@@ -135,6 +135,44 @@ func c13CollidingSet(v cty.Value) bool {
 	return false
 }
 
+// c13TripleTieWithUnknowns: does v hold (at any depth) a known set with three members in one hash bucket,
+// at least one of them not wholly known?
+func c13TripleTieWithUnknowns(v cty.Value) bool {
+	v, _ = v.Unmark()
+	if !v.IsKnown() || v.IsNull() {
+		return false
+	}
+	ty := v.Type()
+	if !(ty.IsCollectionType() || ty.IsTupleType() || ty.IsObjectType()) {
+		return false
+	}
+	if ty.IsSetType() {
+		cnt, unk := map[int]int{}, map[int]bool{}
+		for it := v.ElementIterator(); it.Next(); {
+			_, m := it.Element()
+			mu, _ := m.UnmarkDeep()
+			h := 0
+			if p, _ := try(func() { h = mu.Hash() }); p {
+				continue
+			}
+			cnt[h]++
+			if !mu.IsWhollyKnown() {
+				unk[h] = true
+			}
+			if cnt[h] >= 3 && unk[h] {
+				return true
+			}
+		}
+	}
+	for it := v.ElementIterator(); it.Next(); {
+		_, m := it.Element()
+		if c13TripleTieWithUnknowns(m) {
+			return true
+		}
+	}
+	return false
+}
+
 // c13Case calls the real function, records the correspondence case and returns the result.
 func c13Case(ctx *Ctx, name string, args []cty.Value, zeroStep bool) c13Res {
 	r := c13Invoke(name, args)
@@ -145,6 +183,17 @@ func c13Case(ctx *Ctx, name string, args []cty.Value, zeroStep bool) c13Res {
 		// payload as it is, so these cases are counted and left to the marks slice (C04).
 		if a.ContainsMarked() && c13CollidingSet(a) {
 			ctx.Tag("skipped:unmarkdeep-rebuilds-colliding-set")
+			return r
+		}
+	}
+	for _, a := range args {
+		// Three or more members of one hash bucket of which some are not wholly known (only then can a set hold
+		// RawEquals-identical members): the order INSIDE the bucket after copying / rebuilding the set is an
+		// artefact of the insertion history that the function models do not follow (seen once in 473 613
+		// thorough cases: setunion of one such set keeps [u, f, u], the model rebuilds [u, u, f]).  The value-level
+		// statements are unaffected (iteration order and RawEquals agree); counted and not compared.
+		if c13TripleTieWithUnknowns(a) {
+			ctx.Tag("skipped:three-hash-tied-members-with-unknowns")
 			return r
 		}
 	}
